@@ -151,6 +151,9 @@ class _Lower:
                     self.ctypes[an] = self._type_text(a.base_type, a.declarator)
                 args.append(an)
             kind = "cdef"
+            ev = getattr(decl, "exception_value", None)
+            self._exc_spec = (getattr(ev, "value", None) if ev is not None else None, bool(getattr(decl, "exception_check", False)),
+                              getattr(s.base_type, "name", None))
         else:
             name = s.name
             args = []
@@ -173,6 +176,8 @@ class _Lower:
                 child._parent = parent
         q = f"{prefix}.{name}"
         fi = PyxFunc(q, fn, self.mod, cls, self.ctypes, kind)
+        # `cdef T f(...) except V` : (text of V or None, True for `except? V` / implicit checking, C return type)
+        fi.exc_value, fi.exc_check, fi.ret_ctype = self._exc_spec if kind == "cdef" else (None, True, None)
         k = 2
         while q in self.mod.funcs:
             q = f"{prefix}.{name}#{k}"
